@@ -22,12 +22,12 @@ var Redirects = map[string][2]string{
 	"os":            {"os", "verif.local/sim/simos"},
 	"path/filepath": {"filepath", "verif.local/sim/simfilepath"},
 	"io/ioutil":     {"ioutil", "verif.local/sim/simioutil"},
+	"os/signal":     {"signal", "verif.local/sim/simsignal"},
 }
 
 // Unsupported std packages that would bypass the simulated environment.
 var Forbidden = map[string]string{
 	"os/exec":   "spawns real processes",
-	"os/signal": "real signals",
 	"net":       "real sockets",
 	"net/http":  "real sockets",
 }
